@@ -72,6 +72,18 @@ func VerifC18OverlayState(m *MutableOverlayWorld) string {
 		fmt.Fprintf(&b, "R %s", id)
 		for _, r := range (*m.references)[id] {
 			fmt.Fprintf(&b, " %s", r.Source())
+			if ir, ok := r.(b6.IndexedReference); ok {
+				fmt.Fprintf(&b, "@%d", ir.Index())
+			}
+		}
+		b.WriteString("\n")
+	}
+	ts := m.index.Tokens()
+	for ts.Next() {
+		fmt.Fprintf(&b, "I %q", ts.Token())
+		i := m.index.Begin(ts.Token())
+		for i.Next() {
+			fmt.Fprintf(&b, " %s", m.index.ID(i.Value()))
 		}
 		b.WriteString("\n")
 	}
